@@ -391,6 +391,9 @@ def run(case, ctx, rng):
                     got = norm(call(lambda: calls[0][1](s)))
                     ctx.check('after-fault:result==fresh', same(got, fresh(kind, 0)), got, fresh(kind, 0), singleton=True, **det)
                     s3(ctx, base, det)
+        for nk, nv in list(sanitize.FP_SKIPPED.items()):
+            ctx.notes[nk] += nv
+        sanitize.FP_SKIPPED.clear()
 
 def classify(case, fail):
     return None
